@@ -368,13 +368,30 @@ def generate(repo, outdir_lean, outdir_json, write_if_changed):
                     return True
                 # the count is only the number of objects at the END of the commit when no link that is pushed later (= declared
                 # earlier) writes the count retriever itself (e.g. _PlayerUnits.unit_count is a link of its own: the object's value wins)
+                own = None
                 if mc:
                     cpath = _steps(m_.group(1))[:-1] + [("fld", mc.group(1))]
-                    for l2 in links[:j]:
+                    for j2, l2 in enumerate(links[:j]):
                         m2 = re.search(r"\.(?:plain|objs) \[([^\]]*)\]", l2)
                         if m2 and not _pdiv(_steps(m2.group(1)), cpath):
                             mc = None
+                            if ".plain [" in l2 and _steps(m2.group(1)) == cpath:
+                                own = j2
                             break
+                # the count is a link of its own (`_PlayerUnits.unit_count`): what the object hands to that link is what is stored
+                if own is not None:
+                    laws_src.append(f"theorem tableSafeAt_{mod}_{cname} : Aoe.Props.CommitHolds.tableSafe {mod}.classes 4 {cid} {depth} = true := by decide")
+                    laws_src.append(f"/-- the count of a {cname} (version {v}) is a link of its own (link {own}); when the object hands the number of its objects\n"
+                                    f"to that link (`len(self.<list>)`), the stored count equals the number of stored records of link {j} -/\n"
+                                    f"theorem own_count_{mod}_{cname}_{j} (hist : List Nat) (hh : hist.length = {depth}) (vals : List Val) (s s' : Sections)\n"
+                                    f"    (h : commitObj {mod}.classes 4 {cid} hist (.strct vals) s = .ok s') (os : List Val)\n"
+                                    f"    (hvc : vals[{own}]? = some (.int os.length)) (hvl : vals[{j}]? = some (.list os)) :\n"
+                                    f"    ∃ nc pc ac namesc nl pl ccls d nm g al namesl p q,\n"
+                                    f"      {mod}.c{cid}.links[{own}]? = some (nc, .plain pc ac namesc) ∧ {mod}.c{cid}.links[{j}]? = some (nl, .objs pl ccls d nm g al namesl) ∧\n"
+                                    f"      resolve hist pc = some p ∧ resolve hist pl = some q ∧\n"
+                                    f"      getAt p s'.root = some (.int os.length) ∧ Aoe.Props.CommitFrame.ListLen q os.length s'.root :=\n"
+                                    f"  Aoe.Props.Hooks.count_link_of_table {mod}.classes 3 {cid} hist vals s s' {mod}.c{cid} {own} {j} os\n"
+                                    f"    (by rw [hh]; exact tableSafeAt_{mod}_{cname}) h rfl (by decide) hvc hvl\n")
                 if mc:
                     laws_src.append(f"theorem countSafe_{mod}_{cname}_{j} : Aoe.Props.CommitFrame.countSafe {mod}.classes 3 {mod}.c{cid} {depth} {j} = true := by decide")
                     laws_src.append(f"/-- after the commit of a {cname} (version {v}) the count retriever of its object-list link number {j} holds the number of objects -/\n"
@@ -386,6 +403,26 @@ def generate(repo, outdir_lean, outdir_json, write_if_changed):
                                     f"      ∀ p, resolve hist path = some p → getAt (dropLastStep p ++ [Step.fld ci]) s'.root = some (.int os.length) :=\n"
                                     f"  Aoe.Props.CommitFrame.commit_objs_count_of_safe {mod}.classes 3 {cid} hist vals s s' {mod}.c{cid} rfl h {j}\n"
                                     f"    (by rw [hh]; exact countSafe_{mod}_{cname}_{j}) os hv\n")
+        # the armour/attack slice of Effect: positions of the four links from the link names; side conditions by `decide`
+        em = g.meta.get("Effect")
+        if em:
+            pos = {l["name"]: i for i, l in enumerate(em["links"])}
+            need = ("effect_type", "object_attributes", "quantity", "_variable_ref")
+            if all(n in pos and em["links"][pos[n]]["kind"] == "plain" for n in need) and \
+                    all(l["kind"] in ("plain", "skip") for l in em["links"]):
+                cid = em["id"]
+                it, ia, iq, iv = (pos[n] for n in need)
+                laws_src.append(f"def effSlots_{mod} : Aoe.Props.Hooks.Slots := {{ it := {it}, ia := {ia}, iq := {iq}, iv := {iv} }}")
+                laws_src.append(f"theorem tableSafeAt_{mod}_Effect : Aoe.Props.CommitHolds.tableSafe {mod}.classes 4 {cid} 2 = true := by decide")
+                laws_src.append(f"theorem allPlainSkip_{mod}_Effect : Aoe.Props.Hooks.allPlainSkip {mod}.c{cid} = true := by decide")
+                laws_src.append(f"/-- set → save → load of an armour/attack effect (version {v}): class, amount / variable and every other link value come back\n"
+                                f"from commit + construct, for every layout width `k`, every family table `f`, every effect of the domain -/\n"
+                                f"theorem effect_roundtrip_{mod} (k : Nat) (f : Aoe.AA.Family) (hist : List Nat) (hh : hist.length = 2)\n"
+                                f"    (o : Aoe.Props.Hooks.EffectObj) (ho : Aoe.Props.Hooks.EffDom k f effSlots_{mod} {mod}.c{cid}.links o) (s s' : Sections)\n"
+                                f"    (h : commitObj {mod}.classes 4 {cid} hist (Aoe.Props.Hooks.effToVal k effSlots_{mod} o) s = .ok s') :\n"
+                                f"    (constructObj {mod}.classes 4 {cid} hist s').toOption.bind (Aoe.Props.Hooks.effOfVal k f effSlots_{mod}) = some o :=\n"
+                                f"  Aoe.Props.Hooks.effect_roundtrip k f effSlots_{mod} (by decide) {mod}.classes 3 {cid} hist {mod}.c{cid} rfl\n"
+                                f"    allPlainSkip_{mod}_Effect (by decide) (by rw [hh]; exact tableSafeAt_{mod}_Effect) o ho s s' h\n")
         mods.append((v, mod))
         meta_all[v] = {"classes": g.meta, "managers": [c.__name__ for c in mgr_classes]}
     agg = "\n".join(f"import Aoe.Generated.{m}" for _, m in mods) + "\n/-! GENERATED by tools/gen_mgr.py -/\nnamespace Aoe.Generated\nopen Aoe.Commit\n"
@@ -393,7 +430,7 @@ def generate(repo, outdir_lean, outdir_json, write_if_changed):
     agg += "\n".join(f"  {'if' if i == 0 else 'else if'} v == \"{v}\" then some ({m}.classes, {m}.managers, {m}.secNames)" for i, (v, m) in enumerate(mods))
     agg += "\n  else none\nend Aoe.Generated\n"
     fn = os.path.join(outdir_lean, "MgrTables.lean"); write_if_changed(fn, agg); files.append(fn)
-    laws = ("import Aoe.Props.Links\nimport Aoe.Props.CommitFrame\nimport Aoe.Props.CommitHolds\nimport Aoe.Props.CommitCounts\nimport Aoe.Props.CommitAll\nimport Aoe.Generated.MgrTables\n/-! GENERATED by tools/gen_mgr.py – `commit ∘ construct = id` instantiated at every generated class "
+    laws = ("import Aoe.Props.Links\nimport Aoe.Props.CommitFrame\nimport Aoe.Props.CommitHolds\nimport Aoe.Props.CommitCounts\nimport Aoe.Props.CommitAll\nimport Aoe.Props.Hooks\nimport Aoe.Generated.MgrTables\n/-! GENERATED by tools/gen_mgr.py – `commit ∘ construct = id` instantiated at every generated class "
             "whose links are plain value links without refresh actions (side condition closed by `decide`). -/\n"
             "namespace Aoe.Generated.MgrLaws\nopen Aoe Aoe.Codec Aoe.Lens Aoe.Commit Aoe.Generated\n\n" + "\n".join(laws_src) + "\nend Aoe.Generated.MgrLaws\n")
     fn = os.path.join(outdir_lean, "MgrLaws.lean"); write_if_changed(fn, laws); files.append(fn)
